@@ -176,6 +176,9 @@ inline bool symx_decide (symx::Cmp c, const Sym& a, const Sym& b, bool shadow)
   // a comparison of two variable-free expressions is a concrete fact (decided in
   // binary64 by the shadow values), not a decision
   bool concrete = !cx.nodes[a.id].hasvar && !cx.nodes[b.id].hasvar;
+  // |x| >= 0 and |x| < 0 against the literal zero are facts, not decisions
+  if (!concrete && cx.nodes[a.id].op == symx::FABS && cx.nodes[b.id].op == symx::LIT && cx.nodes[b.id].lit == 0.0
+      && (c == symx::GE || c == symx::LT)) { concrete = true; shadow = (c == symx::GE); }
   if (!concrete) {
     if (cx.forced && cx.ndecisions < cx.script.size())
       outcome = cx.script[cx.ndecisions] != 0;
